@@ -9,12 +9,16 @@ def _tagged_pairs(m):  # noqa: ANN001
     return pairs.rule_c03_r1_for(m, ['TaggedUnionConverter'])
 
 
+def _tagged_escape(m):  # noqa: ANN001
+    return escape.rule_c04_r1_for(m, ['TaggedUnionConverter'])
+
+
 def _pane_pairs(m):  # noqa: ANN001
     return pairs.rule_c03_r1_for(m, ['PaneConverter'])
 
 
 def register(_reg, _mt, STD):  # noqa: ANN001
-    _reg('C01', [dispatch.rule_c01_r1, purity.rule_c01_r2, purity.rule_c01_r3, construction.rule_c14_r1],
+    _reg('C01', [dispatch.rule_c01_r1, purity.rule_c01_r2, purity.rule_c01_r3, construction.rule_c14_r1, classes_rules.rule_c15_r4, pairs.rule_c03_r1],
          "Decides three structural necessary conditions of C01, not membership itself: (R1) make_converter, an ordered decision list, is "
          "interpreted abstractly over a catalogue of 67 type kinds (each described by its position in the stdlib class lattice and its "
          "argument shape) and the first admitting arm must be the documented one (exhaustive over kinds; nesting follows by induction since "
@@ -31,7 +35,7 @@ def register(_reg, _mt, STD):  # noqa: ANN001
         STD + " Stdlib lattice facts (issubclass, isabstract) are read from the interpreter's own stdlib classes, as a type checker consults typeshed.")
 
     _reg('C05', [agreement.rule_c05_r1, agreement.rule_c05_r2, agreement.rule_c05_r3, agreement.rule_c05_r4, agreement.rule_c05_r5,
-                 agreement.rule_c05_r6],
+                 agreement.rule_c05_r6, purity.rule_c01_r3],
          "Decides writer/reader agreement conditions without which the round trip cannot hold (value equality itself is not decided): what a "
          "scalar converter writes is a kind it reads and interchange scalars map to themselves; every constructing converter overrides "
          "into_data; into_data recurses through the same sub-converters as try_convert; for all 64 naming configurations of a field the "
@@ -103,7 +107,7 @@ def register(_reg, _mt, STD):  # noqa: ANN001
         "independent of history.",
         "normal-form comparison; CFG dominance in the member loops; provenance dataflow", "DESIGN.md section 13", STD)
 
-    _reg('C12', [unions.rule_c12_r1, unions.rule_c12_r2, unions.rule_c12_r3, unions.rule_c12_r5, escape.rule_c04_r2, _tagged_pairs],
+    _reg('C12', [unions.rule_c12_r1, unions.rule_c12_r2, unions.rule_c12_r3, unions.rule_c12_r5, escape.rule_c04_r2, _tagged_pairs, _tagged_escape],
          "Decides the structural clauses of C12: for each of the three layouts the writer's normal form (keys and values) equals what the two "
          "readers extract (tag and body), including the shape tests; exactly one variant is consulted, selected through the tag map, with no "
          "fallback loop; the tag-map store is dominated by the uniqueness test; Tagged refuses non-unions and passes the flattened members in "
@@ -140,7 +144,7 @@ def register(_reg, _mt, STD):  # noqa: ANN001
         "control dependence; dominance / must-pass-through on the CFG; def-use discipline", "DESIGN.md section 16", STD)
 
     _reg('C15', [classes_rules.rule_c15_r1, classes_rules.rule_c15_r2, classes_rules.rule_c15_r3, agreement.rule_c05_r4, agreement.rule_c05_r5,
-                 agreement.rule_c05_r6, classes_rules.rule_c17_r1, gates.rule_c02_r2, _pane_pairs],
+                 agreement.rule_c05_r6, classes_rules.rule_c17_r1, gates.rule_c02_r2, classes_rules.rule_c15_r4, _pane_pairs],
          "Decides the structural clauses of C15: the name map binds exactly the Python name and input names of init fields to the field index; "
          "every naming configuration derives consistent input / output names; every rename style has a joiner and every layout is handled; "
          "positional bounds count the positional init fields after the stable keyword-only partition; the decision table of the mapping and "
